@@ -94,6 +94,11 @@ func ResolveRelativeSource(a, b Source) (Source, error) {
 	case LocalSource:
 		aRaw := a.relPath
 		new := path.Join(aRaw, bRaw)
+		if new == "." || new == ".." {
+			// path.Join drops the trailing slash that the canonical forms
+			// "./" and "../" require (see ParseLocalSource).
+			new += "/"
+		}
 		if !looksLikeLocalSource(new) {
 			new = "./" + new // preserve LocalSource's prefix invariant
 		}
